@@ -2,4 +2,4 @@
 # usage: at.sh <worktree> <diff|-> <ID...> — apply diff to a scratch worktree (or keep as is with -) and run the given checks there
 WT=$1; P=$2; shift 2
 if [ "$P" != "-" ]; then (cd $WT && git checkout -q -- . && git apply $P) || exit 2; fi
-for id in "$@"; do (cd /verif && LRS_REPO=$WT LRS_TARGET=$WT/lrs-target ./check $id 2>&1 | awk '/^  C[0-9]|ERROR|Traceback|Error:|^C[0-9]+: /{print substr($0,1,600)}' | head -9); done
+for id in "$@"; do (cd ${VERIF_DIR:-/verif} && LRS_REPO=$WT LRS_TARGET=$WT/lrs-target ./check $id 2>&1 | awk '/^  C[0-9]|ERROR|Traceback|Error:|^C[0-9]+: /{print substr($0,1,600)}' | head -9); done
